@@ -28,11 +28,12 @@ def selections(maxlen):
     return out
 
 
-def world(maxlen=3):
+def world(maxlen=3, sig=False):
+    """sig: f does not exit non-zero, it is killed by a signal (SIGKILL from itself: the OOM killer, a timeout, ...)"""
     sels = selections(maxlen)
     return World(
-        "c05", {"flag": ["0", "1"], "s": ["0", "1"]},
-        {"f.do": [S(deps=["s"], fail="flag")], "g.do": [S(deps=["f"], out="file")], "h.do": [S(deps=["s"])],
+        "c05-sig" if sig else "c05", {"flag": ["0", "1"], "s": ["0", "1"]},
+        {"f.do": [S(deps=["s"], fail="flag", fail_kill=sig)], "g.do": [S(deps=["f"], out="file")], "h.do": [S(deps=["s"])],
          "i.do": [S(deps=["h"], out="file")],
          "all.do": [S(deps=sel, tag="sel" + "".join(sel)) for sel in sels]},
         ["all", "f", "g", "h", "i"], ["all"]), sels
@@ -176,8 +177,10 @@ def main(tier):
     w, sels = world(2 if tier == "quick" else 3)
     hs = histories(sels, tier)
     dw, seqs = driver_world(3)
+    ws, sels_s = world(2, sig=True)        # the same with a script that dies from a signal (lists <= 2 in both tiers)
+    hs_s = histories(sels_s, tier)
     rc1 = e1prop.run_property(
-        PID, tier, [(w, hs, 0), (dw, driver_histories(seqs), 0)], "rv.props.c05", check_names={"c05-driver": "driver_check"},
+        PID, tier, [(w, hs, 0), (dw, driver_histories(seqs), 0), (ws, hs_s, 0)], "rv.props.c05", check_names={"c05-driver": "driver_check"},
         rule="world {f fails iff flag, g->f, h, i->h}; every ordered selection of <= n of {f,g,h,i} (quick n=2, thorough n=3) "
              "(quick: plus the lists of three that start with the failing target) "
              "as the command line of redo-ifchange, of redo, and as the redo-ifchange list inside all.do; x {-k, no -k}; x "
@@ -292,6 +295,8 @@ def replay(path):
     if doc.get("world") == "c05-driver":
         w, _ = driver_world(3)
         chk = driver_check
+    if doc.get("world") == "c05-sig":
+        w, _ = world(2, sig=True)
     bindir = common.build_subject()
     key, viols, summ = replay_history(w, doc["history"], chk, bindir=bindir)
     common.cleanup_scratch()
